@@ -197,7 +197,7 @@ def discharge_all(obligations, rlimit=RLIMIT, shard=0, nshards=1):
     With nshards > 1 only every nshards-th group is handled (the others keep status None)."""
     groups = {}
     for ob in obligations:
-        key = (id(ob.detail), ob.base_len, len(ob.hyps))
+        key = (id(ob.detail), ob.base_len, len(ob.hyps), id(ob.hyps[-1]) if ob.hyps else 0)
         groups.setdefault(key, []).append(ob)
     for gi, obs in enumerate(groups.values()):
         if gi % nshards != shard:
